@@ -9,7 +9,7 @@
    and F21, F22 (found by this proof: binders that shadow a live name / the provider's name; fixed). *)
 Require Import Grits.Base Grits.Forms Grits.Expand Grits.Tc Grits.TcTop
                Grits.spec.Linear Grits.spec.Sequents Grits.spec.Indep
-               Grits.proofs.LinearProofs Grits.proofs.LinearTop Grits.proofs.IndepTop Grits.proofs.Witnesses.
+               Grits.spec.Oracle Grits.proofs.LinearProofs Grits.proofs.LinearTop Grits.proofs.IndepTop Grits.proofs.OracleProofs Grits.proofs.Witnesses.
 
 (* one body: parameters / free names used exactly once on every control path, names out of scope
    never, every bound name exactly once in its scope, no binder re-binds a live name or the provider *)
@@ -24,6 +24,14 @@ Proof. exact tc_linear. Qed.
 Theorem C05_drop_split_modes : forall p p', env_moded_b (p_types p) = true -> typecheck p = Accept p' -> DropSplitProgram p p'.
 Proof. exact tc_drop_split_program. Qed.
 
+(* the executable oracle of the check decides the statement, and the model never accepts what it flags *)
+Theorem C05_oracle_exact : forall p, linear_program_b p = true <-> LinearProgram p.
+Proof. exact linear_program_b_iff. Qed.
+Theorem C05_oracle_agrees : forall p p', uninit_prog p = true -> typecheck p = Accept p' -> linear_program_b p = true.
+Proof. exact lin_oracle_agrees. Qed.
+Theorem C05_oracle_modes_agrees : forall p p', env_moded_b (p_types p) = true -> typecheck p = Accept p' -> drop_split_program_b p = true.
+Proof. exact drop_split_oracle_agrees. Qed.
+
 (* non-vacuity: an accepted program with drop, split, cuts and a case; its path counts *)
 Example C05_example_accepted : parse_string ex_text = POk ex_p /\ typecheck ex_p = Accept ex_p' /\ uninit_prog ex_p = true.
 Proof. exact (conj ex_parses (conj ex_accepted ex_uninit)). Qed.
@@ -37,3 +45,6 @@ Proof. exact (tc_linear _ _ ex_uninit ex_accepted). Qed.
 Print Assumptions C05_body.
 Print Assumptions C05_program.
 Print Assumptions C05_drop_split_modes.
+Print Assumptions C05_oracle_exact.
+Print Assumptions C05_oracle_agrees.
+Print Assumptions C05_oracle_modes_agrees.
